@@ -202,6 +202,15 @@ def run(ctx):
         fixed["vector"] = copy.deepcopy(case["vector"])
         fixed["mods"] = copy.deepcopy(case["mods"])
         case = perturb(rng, case, info)
+        if rng.random() < 0.2 and len(case["mods"]) >= 1:
+            # two inputs carrying one record identifier (unnamed records, one accession exported twice)
+            a = rng.choice(case["mods"])
+            b = rng.choice([e for e in [case["vector"]] + case["mods"] if e is not a] or [case["vector"]])
+            a["rid"] = b["rid"]
+            if fixed is not None:
+                for e in fixed["mods"]:
+                    if e["oid"] == a["oid"]:
+                        e["rid"] = b["rid"]
         if case["mode"] in ("invalid-vector", "fault-vector", "bad-citation"):
             fixed = None
         case["fixed"] = fixed
